@@ -30,6 +30,24 @@ template<typename T, typename T_Sbx>
 using convert_to_sandbox_equivalent_t =
   typename convert_to_sandbox_equivalent_helper<T, T_Sbx>::type;
 
+// Whether the layout of T in sandbox memory is known: it is for every non class
+// type, and for a class once rlbox_load_structs_from_library has described it
+template<typename T, typename T_Sbx, typename T_Enable = void>
+struct has_sandbox_equivalent : std::false_type
+{};
+
+template<typename T, typename T_Sbx>
+struct has_sandbox_equivalent<
+  T,
+  T_Sbx,
+  std::void_t<typename convert_to_sandbox_equivalent_helper<T, T_Sbx>::type>>
+  : std::true_type
+{};
+
+template<typename T, typename T_Sbx>
+inline constexpr bool has_sandbox_equivalent_v =
+  has_sandbox_equivalent<T, T_Sbx>::value;
+
 // This is used by rlbox_load_structs_from_library to test the current namespace
 struct markerStruct
 {};
